@@ -395,11 +395,8 @@ fn join_test(ctx: &Ctx, c: &JoinCase, st: &mut Stats) -> Verdict {
             st.excluded("gen.nl_right_full");
         }
     }
-    if jt >= 4 && !ctx.off("gen.merge_semi_anti") && resid == 0 {
-        want[2] = true;
-    } else if jt >= 4 && resid == 0 {
-        st.excluded("gen.merge_semi_anti");
-    }
+    // semi/anti joins have two implementations only (nested loop, hash): since fix e60522a the
+    // planner never emits `mergejoin semi|anti` (C17 checks that), so none is built here
 
     let res = block_on(async {
         let env = Env::new();
